@@ -163,8 +163,15 @@ class PDriver:
         i = 0
         wrote = False
 
+        mut_at = mutinfo[0] if mutinfo is not None else None
+
         def obs_after(k):
             if k + 1 < len(listings):
+                # observations are sampled when the NEXT operation begins; if the concurrent message ran in between, the flag
+                # sampled there already shows the message's mark: what held after operation k is the value sampled before it
+                # (file operations do not touch the flag; only the very first step of a save may claim it)
+                if mut_at is not None and k + 1 == mut_at and k >= 1:
+                    return listings[k + 1], dirties[k]
                 return listings[k + 1], dirties[k + 1]
             # after the last operation: the flag cannot be read between the operation and the return of
             # save_sensors; file operations never touch it, so its value before the operation is used
@@ -175,7 +182,10 @@ class PDriver:
         pending = None
         while i < n:
             if mutinfo is not None and i == mutinfo[0]:
-                self._obs({"a": "Mutate", "v": mutinfo[1], "noticed": mutinfo[2]}, *obs_after(i - 1))
+                # the message's own observation: sampled when the operation after it begins (after the last operation:
+                # the message has marked the state unsaved)
+                m_obs = (listings[i], dirties[i]) if i < len(listings) else (None, True)
+                self._obs({"a": "Mutate", "v": mutinfo[1], "noticed": mutinfo[2]}, *m_obs)
                 if mutinfo[2]:
                     return          # the dump raised: save_sensors unwound (covered by the Mutate action)
                 mutinfo = None
